@@ -1295,6 +1295,11 @@ func Run(r *mc.Run) {
 		m  *mapping.IndexMappingImpl
 		b1 []byte
 	}
+	t0 := time.Now()
+	lap := func(part string) {
+		r.Note("seconds_"+part, float64(int(time.Since(t0).Seconds()*10))/10)
+		t0 = time.Now()
+	}
 	// phase 1: JSON round trip, default (lenient) mode
 	mapping.MappingJSONStrict = false
 	stride := mc.Pick(r, 97, 23)
@@ -1308,6 +1313,7 @@ func Run(r *mc.Run) {
 			}
 		}
 	})
+	lap("phase1_json")
 	// phase 2: strict JSON mode: every key Marshal writes must be accepted by the strict decoders
 	if !r.Expired() {
 		mapping.MappingJSONStrict = true
@@ -1319,6 +1325,7 @@ func Run(r *mc.Run) {
 		mapping.MappingJSONStrict = false
 		r.Count("strict_mode_mappings", int64(n))
 	}
+	lap("phase2_strict")
 	// phase 3: disk cycles (8 workers: tmpfs-bound)
 	var picks []*valid
 	for _, v := range diskPick {
@@ -1330,4 +1337,5 @@ func Run(r *mc.Run) {
 		v := picks[k]
 		c.diskCycle(specs[v.i], v.m, v.b1)
 	})
+	lap("phase3_disk")
 }
